@@ -38,3 +38,5 @@ def run(ctx):
     R3.r14_12_same_constructors(ctx)
     R3.r14_13_value_as_given(ctx)
     R3.r14_14_exact_key_match(ctx, 'R14.14')
+    from . import memo_rules as M
+    M.memo_sound(ctx, 'R14.M')
